@@ -1,4 +1,7 @@
-(* Crdt/TreeText.v — model of crdt.Tree.Edit restricted to the text inside one element
+(* Crdt/TreeText.v — model of crdt.Tree.Edit restricted to the children of one element that are
+   either all text or all empty elements (an empty element is one character: its ticket, place 0,
+   its type letter; a run of elements inserted by one edit is rendered like a run of characters).
+   First case: the text inside one element
    (pkg/document/crdt/tree.go: FindTreeNodesWithSplitText for both ends, collectBetween over the
    text pieces between them, tombstoneCollected, insertion of one text node), at the granularity
    of single characters: the children of the element are text pieces (createdAt, offset, "abc")
